@@ -46,6 +46,10 @@ func lastKey(s Sort) string {
 	return regHeap(ghLast+"$"+sanitize(string(s)), ArrSort(SInt, s))
 }
 
+func lastRecvKey(s Sort) string {
+	return regHeap("#lrecv$"+sanitize(string(s)), ArrSort(SInt, s))
+}
+
 func (x *Exec) sentCount(st *State, ch *Term) *Term {
 	return Select(st.heapArr(ghSent, heapSorts[ghSent]), ch)
 }
@@ -64,7 +68,7 @@ func (x *Exec) doSend(st *State, in ssa.Instruction, chv, v Val, chSSA ssa.Value
 	val := x.term(st, v, vt)
 	if x.full {
 		role := chanRole(chSSA)
-		if role == "" || x.P.closable[role] || x.P.closable[""] {
+		if x.P.mayBeClosed(chSSA.Type()) {
 			// (roles no function of the module ever closes cannot panic on send)
 			x.oblige(st, "snd", fmt.Sprintf("#%d", x.ordinal("snd", in)), Not(x.closedAt(st, st.heapArr(ghClosed, heapSorts[ghClosed]), ch)), in.Pos(),
 				"send on a channel that is not closed (role "+role+")")
@@ -72,13 +76,24 @@ func (x *Exec) doSend(st *State, in ssa.Instruction, chv, v Val, chSSA ssa.Value
 		x.checkChanInv(st, in, role, val, vt)
 	}
 	x.recordSend(st, ch, val)
+	// a message after which the receiving side closes the channel (chan <role> closing <pred>):
+	// from the sender's point of view the channel is closed from here on
+	if ct := x.P.ChanInv[chanRole(chSSA)]; ct != nil {
+		for _, cl := range ct.Requires {
+			t, ok := x.evalSpecWith(st, cl.Expr, "inv", map[string]specBinding{"v": {Val{T: val}, vt}})
+			if ok {
+				arr := st.heapArr(ghClosed, heapSorts[ghClosed])
+				st.heap[ghClosed] = Store(arr, ch, Or(t, x.closedAt(st, arr, ch)))
+			}
+		}
+	}
 	x.yield(st)
 }
 
 // checkChanInv: the role invariant is an obligation at every send site under contract.
 func (x *Exec) checkChanInv(st *State, in ssa.Instruction, role string, v *Term, vt types.Type) {
 	ct := x.P.ChanInv[role]
-	if ct == nil || ct.Trusted {
+	if ct == nil {
 		return
 	}
 	for _, cl := range ct.Ensures {
@@ -94,10 +109,10 @@ func (x *Exec) assumeChanInv(st *State, role string, v *Term, vt types.Type, gua
 	if ct == nil {
 		return
 	}
-	if ct.Trusted {
-		x.trustedUsed["chan "+role] = true
+	if len(ct.Assumes) > 0 {
+		x.trustedUsed["chan "+role+" (assumed clause)"] = true
 	}
-	for _, cl := range ct.Ensures {
+	for _, cl := range append(append([]*Clause{}, ct.Ensures...), ct.Assumes...) {
 		t, ok := x.evalSpecWith(st, cl.Expr, "inv", map[string]specBinding{"v": {Val{T: v}, vt}, "ch": {Val{T: ch}, cht}})
 		if ok {
 			st.add(Implies(guard, t))
@@ -123,11 +138,16 @@ func (x *Exec) doRecv(st *State, u *ssa.UnOp, chv Val, chSSA ssa.Value, commaOk 
 	et := chSSA.Type().Underlying().(*types.Chan).Elem()
 	v := x.freshVar("recv", sortOfStatic(et))
 	ok := True
-	if commaOk {
+	if commaOk && x.P.mayBeClosed(chSSA.Type()) {
 		ok = x.freshVar("recv_ok", SBool)
 		// a receive yields !ok only from a closed channel
 		st.add(Implies(Not(ok), x.closedAt(st, st.heapArr(ghClosed, heapSorts[ghClosed]), ch)))
 		st.add(Implies(Not(ok), Eq(v, zeroOf(et))))
+	}
+	if ct := x.P.ChanInv[chanRole(chSSA)]; ct != nil && len(ct.Requires) > 0 && commaOk {
+		// role with a closing message: nothing is sent after it (obligation on the sender side),
+		// so once the receiver has closed the channel it is empty
+		st.add(Implies(x.closedAt(st, st.heapArr(ghClosed, heapSorts[ghClosed]), ch), Not(ok)))
 	}
 	x.recvFacts(st, chSSA, ch, v, et, ok)
 	if commaOk {
@@ -144,7 +164,11 @@ func (x *Exec) recvFacts(st *State, chSSA ssa.Value, ch, v *Term, et types.Type,
 	x.typeInvFacts(st, v, et)
 	x.assumeChanInv(st, chanRole(chSSA), v, et, ok, ch, chSSA.Type())
 	arr := st.heapArr(ghRecvd, heapSorts[ghRecvd])
-	st.heap[ghRecvd] = Store(arr, ch, Add(Select(arr, ch), Ite(ok, One, Zero)))
+	// recvd counts completed receive operations (a receive from a closed channel completes too)
+	st.heap[ghRecvd] = Store(arr, ch, Add(Select(arr, ch), One))
+	lk := lastRecvKey(v.Sort)
+	la := st.heapArr(lk, heapSorts[lk])
+	st.heap[lk] = Store(la, ch, Ite(ok, v, Select(la, ch)))
 }
 
 // allocFactsLoose: a received reference may have been allocated by another goroutine after
@@ -199,6 +223,9 @@ func (x *Exec) doSelect(st *State, s *ssa.Select) bool {
 					ch := x.term(cur, x.val(cur, sc.Chan), sc.Chan.Type())
 					v := x.freshVar("recv", sortOfStatic(et))
 					ok := x.freshVar("recv_ok", SBool)
+					if !x.P.mayBeClosed(sc.Chan.Type()) {
+						cur.add(ok)
+					}
 					cur.add(Implies(Not(ok), x.closedAt(cur, cur.heapArr(ghClosed, heapSorts[ghClosed]), ch)))
 					cur.add(Implies(Not(ok), Eq(v, zeroOf(et))))
 					x.recvFacts(cur, sc.Chan, ch, v, et, ok)
